@@ -11,6 +11,7 @@ package main
 // RequestFormatter from reflectively generated bodies.
 
 import (
+	"runtime/metrics"
 	"os"
 	"strings"
 	"bytes"
@@ -172,6 +173,64 @@ func c11MemberIDDomain(req kmsg.Request, steer bool) bool {
 	return true
 }
 
+const (
+	c11FindingListOffsetsCount = "C11-listoffsets-v0-count-oom"
+	c11FindingTraceNil         = "C11-trace-unknown-topic-id-nil"
+)
+
+// c11ListOffsetsCountDomain: ListOffsets v0 whose MaxNumOffsets is large enough for
+// handleListOffsets' make([]int64, 0, MaxNumOffsets) to matter (listed finding). With steer the
+// count becomes 1. (req is in wire form: at v1+ the field does not exist.)
+func c11ListOffsetsCountDomain(req kmsg.Request, steer bool) bool {
+	lr, ok := req.(*kmsg.ListOffsetsRequest)
+	if !ok || lr.Version != 0 {
+		return false
+	}
+	hit := false
+	for i := range lr.Topics {
+		for j := range lr.Topics[i].Partitions {
+			if lr.Topics[i].Partitions[j].MaxNumOffsets > 1<<20 {
+				hit = true
+				if steer {
+					lr.Topics[i].Partitions[j].MaxNumOffsets = 1
+				}
+			}
+		}
+	}
+	return hit
+}
+
+// c11TraceNilDomain: with KAFSCALE_TRACE_KAFKA on, a Metadata request that names a topic by an
+// id the broker does not know makes the trace block dereference the nil name of the
+// UNKNOWN_TOPIC_ID entry (listed finding). With steer unknown ids become a known one.
+func c11TraceNilDomain(req kmsg.Request, trace bool, ids map[[16]byte]string, steer bool) bool {
+	mr, ok := req.(*kmsg.MetadataRequest)
+	if !ok || !trace {
+		return false
+	}
+	var known [16]byte
+	for id := range ids {
+		if id != ([16]byte{}) {
+			known = id
+			break
+		}
+	}
+	hit := false
+	for i := range mr.Topics {
+		id := mr.Topics[i].TopicID
+		if id == ([16]byte{}) {
+			continue
+		}
+		if _, ok := ids[id]; !ok {
+			hit = true
+			if steer {
+				mr.Topics[i].TopicID = known
+			}
+		}
+	}
+	return hit
+}
+
 type c11Result struct {
 	err      error
 	panicked any
@@ -230,7 +289,7 @@ func c11Metadata() metadata.ClusterMetadata {
 
 func c11Env() *vfc10gen.Env {
 	return &vfc10gen.Env{
-		Bounded: true, HostileGroupMetadata: true,
+		Bounded: true, HostileGroupMetadata: true, HostileCounts: true,
 		Topics:  []string{"orders", "payments", "orders", "no-such-topic", "fresh-topic"},
 		IDs:     [][16]byte{metadata.TopicIDForName("orders"), metadata.TopicIDForName("payments")},
 		Groups:  []string{"g1", "g2"},
@@ -295,6 +354,8 @@ func TestVF_C11_Broker(t *testing.T) {
 	env := c11Env()
 	known := vfkit.Known(c11FindingLivelock)
 	knownMemberID := vfkit.Known(c11FindingMemberID)
+	knownCount := vfkit.Known(c11FindingListOffsetsCount)
+	knownTrace := vfkit.Known(c11FindingTraceNil)
 	inconclusive := ""
 	defer func() {
 		if inconclusive != "" {
@@ -314,6 +375,11 @@ func TestVF_C11_Broker(t *testing.T) {
 		}
 		h := newHandler(store, storage.NewMemoryS3Client(), brokerInfo, testLogger())
 		defer h.coordinator.Stop()
+		// operator switch KAFSCALE_TRACE_KAFKA=true (newHandler reads it into this field)
+		h.traceKafka = rapid.IntRange(0, 3).Draw(t, "trace-kafka") == 0
+		if h.traceKafka {
+			mode += "+trace"
+		}
 		sw.cur.Store(h)
 		listener, target := "plain", addr
 		var proxyHeader []byte
@@ -345,7 +411,21 @@ func TestVF_C11_Broker(t *testing.T) {
 					st.Class("joingroup-group-id-near-32767")
 				}
 			}
+			if c11ListOffsetsCountDomain(p.Req, knownCount) {
+				if knownCount {
+					st.ExcludedCase(c11FindingListOffsetsCount)
+				} else {
+					st.Class("listoffsets-v0-huge-max-num-offsets")
+				}
+			}
 			counts, ids := c11PartitionCounts(store)
+			if c11TraceNilDomain(p.Req, h.traceKafka, ids, knownTrace) {
+				if knownTrace {
+					st.ExcludedCase(c11FindingTraceNil)
+				} else {
+					st.Class("trace+metadata-by-unknown-topic-id")
+				}
+			}
 			if c11LivelockDomain(p.Req, counts, ids, known) {
 				if known {
 					st.ExcludedCase(c11FindingLivelock)
@@ -590,6 +670,91 @@ func c11GenProxyHeader(t *rapid.T) ([]byte, string) {
 		tl, k := tlvs()
 		return v2(0x21, 0x11, append(b, tl...)), "v2-tcp4" + k
 	}
+}
+
+// TestVF_C11_WitnessListOffsetsCount: ListOffsets v0 with a large max_num_offsets. The real
+// witness (0x7fffffff => 16 GiB per partition => fatal out of memory) cannot be replayed
+// safely; 2^25 shows the same thing harmlessly: the handler allocates what the client's
+// count says (256 MiB for a 50-byte request).
+func TestVF_C11_WitnessListOffsetsCount(t *testing.T) {
+	st := vfkit.NewStats("C11", "witness-listoffsets")
+	defer st.Flush()
+	st.Eval()
+	log.SetOutput(io.Discard)
+	store := &c11Store{InMemoryStore: metadata.NewInMemoryStore(c11Metadata()), limit: 3000}
+	h := newHandler(store, storage.NewMemoryS3Client(), protocol.MetadataBroker{NodeID: 1, Host: "127.0.0.1", Port: 19092}, testLogger())
+	defer h.coordinator.Stop()
+	req := kmsg.NewPtrListOffsetsRequest()
+	req.SetVersion(0)
+	req.ReplicaID = -1
+	tp := kmsg.NewListOffsetsRequestTopic()
+	tp.Topic = "orders"
+	pp := kmsg.NewListOffsetsRequestTopicPartition()
+	pp.Partition, pp.Timestamp, pp.MaxNumOffsets = 0, -1, 1<<25
+	tp.Partitions = append(tp.Partitions, pp)
+	req.Topics = append(req.Topics, tp)
+	if !c11ListOffsetsCountDomain(req, false) {
+		t.Fatalf("HARNESS BUG: the witness is outside the exclusion predicate")
+	}
+	sample := []metrics.Sample{{Name: "/gc/heap/allocs:bytes"}}
+	metrics.Read(sample)
+	before := sample[0].Value.Uint64()
+	cid := "vf-witness"
+	out, err := h.Handle(context.Background(), &protocol.RequestHeader{APIKey: 2, APIVersion: 0, CorrelationID: 3, ClientID: &cid}, req)
+	metrics.Read(sample)
+	allocated := sample[0].Value.Uint64() - before
+	still := allocated > 64<<20
+	what := fmt.Sprintf("ListOffsets v0 orders/0 with max_num_offsets=2^25 (%d-byte request): the handler allocated %d MiB while answering (reply %d bytes, err=%v)", len(req.AppendTo(nil)), allocated>>20, len(out), err)
+	if still {
+		what += " - make([]int64, 0, MaxNumOffsets) is sized by the client; 0x7fffffff asks for 16 GiB per partition => fatal error: out of memory, no reply"
+	}
+	st.KnownResult(c11FindingListOffsetsCount, still, what)
+	if still && !vfkit.Known(c11FindingListOffsetsCount) {
+		t.Fatalf("finding %s is not listed as known and reproduces: %s", c11FindingListOffsetsCount, what)
+	}
+	st.NonTrivial("witness-listoffsets", still)
+	st.Sample(map[string]any{"result": what})
+	t.Log(what)
+}
+
+// TestVF_C11_WitnessTraceNil: Metadata v12 by an unknown topic id with trace logging on.
+func TestVF_C11_WitnessTraceNil(t *testing.T) {
+	st := vfkit.NewStats("C11", "witness-trace")
+	defer st.Flush()
+	st.Eval()
+	log.SetOutput(io.Discard)
+	store := &c11Store{InMemoryStore: metadata.NewInMemoryStore(c11Metadata()), limit: 3000}
+	h := newHandler(store, storage.NewMemoryS3Client(), protocol.MetadataBroker{NodeID: 1, Host: "127.0.0.1", Port: 19092}, testLogger())
+	defer h.coordinator.Stop()
+	h.traceKafka = true
+	req := kmsg.NewPtrMetadataRequest()
+	req.SetVersion(12)
+	mt := kmsg.NewMetadataRequestTopic()
+	mt.TopicID = [16]byte{0xde, 0xad, 0xbe, 0xef, 1, 2, 3, 4, 5, 6, 7, 8, 9, 10, 11, 12}
+	req.Topics = append(req.Topics, mt)
+	_, ids := c11PartitionCounts(store)
+	if !c11TraceNilDomain(req, true, ids, false) {
+		t.Fatalf("HARNESS BUG: the witness is outside the exclusion predicate")
+	}
+	sw := &c11Switch{res: map[int32]c11Result{}}
+	sw.cur.Store(h)
+	cid := "vf-witness"
+	out, err := sw.Handle(context.Background(), &protocol.RequestHeader{APIKey: 3, APIVersion: 12, CorrelationID: 4, ClientID: &cid}, req)
+	res, _ := sw.take(4)
+	still := res.panicked != nil
+	what := "Metadata v12 by an unknown topic id with KAFSCALE_TRACE_KAFKA=true: "
+	if still {
+		what += fmt.Sprintf("handler panicked (%v): the trace block formats *topic.Topic of the UNKNOWN_TOPIC_ID entry whose name is nil; no recover on the connection goroutine, the broker dies", res.panicked)
+	} else {
+		what += fmt.Sprintf("answered (%d bytes, err=%v)", len(out), err)
+	}
+	st.KnownResult(c11FindingTraceNil, still, what)
+	if still && !vfkit.Known(c11FindingTraceNil) {
+		t.Fatalf("finding %s is not listed as known and reproduces: %s", c11FindingTraceNil, what)
+	}
+	st.NonTrivial("witness-trace", still)
+	st.Sample(map[string]any{"result": what})
+	t.Log(what)
 }
 
 // c11Acks0Appends: can this produce append anything (store reachable and at least one
